@@ -103,6 +103,8 @@ pub struct Profile {
     pub piped_wiki: bool,
     /// list items whose first block is a code block, quote or table ("- ```")
     pub item_block_first: bool,
+    /// key of the note being generated: now and then its title is its own name (a link to it then reads like its url)
+    pub own_key: Option<String>,
 }
 
 impl Profile {
@@ -128,6 +130,7 @@ impl Profile {
             cell_internal_links: true,
             piped_wiki: true,
             item_block_first: true,
+            own_key: None,
         }
     }
     pub fn has(&self, c: &str) -> bool {
@@ -196,7 +199,12 @@ impl<'a> Gen<'a> {
             return None;
         }
         let t = self.rng.pick(&pool).clone();
-        let text = self.plain_words(1, 2);
+        let mut text = self.plain_words(1, 2);
+        // an internal link whose text is its own url (what a link to an untitled or missing note looks like once written
+        // by hand): must stay an ordinary link, not become an autolink
+        if !t.external && self.rng.chance(1, 10) {
+            text = vec![Inl::W(if self.rng.chance(1, 3) { t.dest.to_uppercase() } else { t.dest.clone() })];
+        }
         if t.external {
             let style = if self.rng.chance(1, 4) {
                 LStyle::Auto
@@ -617,7 +625,14 @@ impl<'a> Gen<'a> {
         }
         let title = self.p.force_title.unwrap_or_else(|| self.rng.chance(3, 4));
         if title && self.p.headings {
-            blocks.push(self.heading(1));
+            match self.p.own_key.clone() {
+                Some(k) if self.rng.chance(1, 12) => {
+                    let base = k.rsplit('/').next().unwrap_or(&k).to_string();
+                    let t = if self.rng.chance(1, 2) { base.to_uppercase() } else { base };
+                    blocks.push(Blk::Heading(1, vec![Inl::W(t)], HStyle::Atx));
+                }
+                _ => blocks.push(self.heading(1)),
+            }
         }
         while blocks.len() < n {
             let prev_list = matches!(blocks.last(), Some(Blk::List(..)));
